@@ -16,6 +16,7 @@ Agrees(a, b) ==
     IF a.k \in {"list", "tuple"} THEN
         b.k = a.k /\ Len(a.v) = Len(b.v) /\ \A i \in 1..Len(a.v) : Agrees(a.v[i], b.v[i])
     ELSE IF a.k = "bool" THEN b.k = "bool" /\ a.b = b.b
+    ELSE IF a.k = "uninit" THEN b.k = "uninit"            \* an element of fp.empty never written
     ELSE IF a.k = "big" THEN b.k = "big" /\ a.s = b.s /\ a.n = b.n /\ a.d = b.d
     ELSE IF a.k \in {"fin", "inf", "nan"} THEN b.k \in {"fin", "inf", "nan"} /\ Same(Canon(a), Canon(b))
     ELSE FALSE
